@@ -215,7 +215,7 @@ def read_model(path):
     out = {}
     with open(path) as f:
         for l in f:
-            t = l.rstrip('\n').split(' ')
+            t = l.split()
             if t and t[0].isdigit():
                 out[int(t[0])] = t[1:]
     return out
